@@ -28,15 +28,40 @@
     refused_before_write …      the refusals raised while the operations are added or by the unique-name check happen before
                                 the directory exists; a malformed @mixin on a FRAGMENT definition is refused after writes
     generate_total_partial      valid input + accepting formatter + the result-type / fragment generators refusing only with
-                                documented refusals (C01/C08's models) ⇒ the run ends in a package or a documented refusal
-    generated_wellscoped        Supported_04 ∧ Proved_04 ⇒ WellScoped; the finding triggers are EXACTLY the parts
-                                identsOK / paramsDistinct / enumMembersOK / bindingsUnique / rebuilt; `allOK` for every input
+                                documented refusals (C01/C08's models; hypotheses, not proved) ⇒ the run ends in a package or a
+                                documented refusal
+    ONE THEOREM PER MODULE KIND (Valid ∧ Supported_04, every schema / operation set / fragment set / configuration):
+      enums_module_wellscoped      enums.py: all of `residualParts`
+      inputs_module_wellscoped     input_types.py: all of `residualParts` (imports resolve; every annotation / default name is
+                                   a builtin or imported; forward references name classes the dependency closure keeps)
+      client_module_wellscoped     client.py: all of `residualParts` (every result class / input / enum / scalar a method
+                                   mentions is imported from a module that defines it)
+      init_module_wellscoped       __init__.py: every `from .m import names` names a module that defines the names
+      result_module_wellscoped     an operation module: all of `residualParts` (imports resolve: enums, fragment classes,
+                                   scalars, @mixin; every base and every annotation name is bound; rebuild calls name classes of
+                                   the module: `result_module_parts`; forward references: outside finding region F25)
+      fragments_module_wellscoped  fragments.py: the same, and every class is defined before the classes inheriting from it
+      forward_refs_resolve         the finding region `forwardRefDangling` (F25) lies outside the decidable region `leafNamesOK`
+                                   (no field name selected as a leaf names a composite-typed field of any type of the schema):
+                                   there the quoted forward references of operation modules and fragments.py name classes of the
+                                   module, whatever the nesting, the fragments, the type a selection set is evaluated for
+      copied_modules_verbatim      copied files / custom-operation modules: `WellScoped` asks nothing of them (oracle only)
+    generated_wellscoped        Valid ∧ Supported_04 ⇒ WellScoped (no evaluated conjunct): the finding triggers are EXACTLY the
+                                parts identsOK / paramsDistinct / enumMembersOK / bindingsUnique / rebuilt / forward references of
+                                the result modules; `allOK` for every input; the rest is the per-module theorems
     import_autoflake_safe       pruning unused imports never removes a name the module uses
   `C04_full` is false on the pinned tree (`C04_full_false`, kernel-evaluated witnesses through the whole model);
   `C04_partial` = the property under Valid ∧ Supported_04 ∧ Proved_04.  `Proved_04` (decidable, evaluated by the driver
-  on every case, measured in the evidence) is the unproved region: the model's own run ends in a package whose
-  generated modules pass `Spec.PyScope.residualParts` (imports resolve, names bound before use, forward references and
-  rebuild targets defined) or in a documented refusal.
+  on every case, measured in the evidence) is what is still OPEN, and nothing else: when the model's run ends in an
+  exception, that it is a documented refusal (totality of the result-type and fragments generator models: the two named
+  hypotheses of `generate_total_partial`).  For a run that ends in a package `Proved_04` is `True`.  `model_run_total`
+  reduces it to ONE hypothesis: `Valid ∧ Supported_04 ∧ ResultTypesTotal ⇒ Proved_04` — the fragments generator (topological
+  sort, class lookup, rebuild calls), the input-types generator, `add_method` and the package-level code raise nothing of
+  their own (`C04_partial_of_total`).
+  Found by these proofs (each forced a hypothesis, the real generator fails at the excluded point): F23
+  `operationModuleOverwritten`, F24 `enumDefaultNotEnum`, F25 `forwardRefDangling` (a VALID document whose package does not
+  import: the general statement "forward references resolve" is false, `F25_fails_in_model`); and a repair of the reference
+  reading (names inside a `lambda:` body are not evaluated when the class statement runs: `ClassIR.lazy`).
 -/
 import AriadneModel.Model.Package
 import AriadneModel.Model.PackageTriggers
@@ -49,6 +74,18 @@ import AriadneModel.Proofs.C04Init
 import AriadneModel.Proofs.C04Errors
 import AriadneModel.Proofs.C04Scope
 import AriadneModel.Proofs.C04Rebuild
+import AriadneModel.Proofs.C04ModEnums
+import AriadneModel.Proofs.C04ModInputs3
+import AriadneModel.Proofs.C04ModClient
+import AriadneModel.Proofs.C04ModResult2
+import AriadneModel.Proofs.C04ModInit
+import AriadneModel.Proofs.C04Fwd2
+import AriadneModel.Proofs.C04Total2
+import AriadneModel.Proofs.C04Defs
+import AriadneModel.Proofs.C04WitnessA
+import AriadneModel.Proofs.C04WitnessB
+import AriadneModel.Proofs.C04WitnessC
+import AriadneModel.Proofs.C04WitnessD
 
 set_option linter.unusedSimpArgs false
 set_option linter.unusedVariables false
@@ -63,50 +100,27 @@ open Ariadne.ResultTypes (GenErr)
     by the correspondence, not proved) -/
 def FmtTotal (fmt : FmtOracle) : Prop := ∀ m, fmt m = true
 
-/-- a valid input: schema and document valid as `Spec/Validate` decides, names GraphQL names, variables and input fields
-    declared with input types -/
-def Valid (cfg : Config) (inp : Input) : Prop := validB cfg inp = true
-
-instance (cfg : Config) (inp : Input) : Decidable (Valid cfg inp) := by unfold Valid; infer_instance
+/-- the conjuncts of `Valid` -/
+theorem Valid.parts {cfg : Config} {inp : Input} (h : Valid cfg inp) :
+    namesOK inp = true ∧ docValid inp = true ∧ varsTyped inp = true ∧ inputFieldsTyped cfg inp = true ∧
+    cfgOK cfg = true ∧ mixinsOK cfg inp = true ∧ defsMatch inp = true ∧ fragsAcyclic inp = true := by
+  unfold Valid validB at h
+  simp only [Bool.and_eq_true] at h
+  obtain ⟨⟨⟨⟨⟨⟨⟨h1, h2⟩, h3⟩, h4⟩, h5⟩, h6⟩, h7⟩, h8⟩ := h
+  exact ⟨h1, h2, h3, h4, h5, h6, h7, h8⟩
 
 theorem Valid.vars {cfg : Config} {inp : Input} (h : Valid cfg inp) :
     ∀ o ∈ inp.ops, ∀ v ∈ o.vars, isInputKind ((argEnv cfg inp).kind v.type.base) = true := by
-  unfold Valid validB at h
-  simp only [Bool.and_eq_true] at h
+  obtain ⟨_, _, h3, _⟩ := h.parts
   intro o ho v hv
-  exact List.all_eq_true.mp (List.all_eq_true.mp h.1.2 o ho) v hv
+  exact List.all_eq_true.mp (List.all_eq_true.mp h3 o ho) v hv
 
 theorem Valid.inputs {cfg : Config} {inp : Input} (h : Valid cfg inp) : InputFieldsTyped cfg inp := by
-  unfold Valid validB at h
-  simp only [Bool.and_eq_true] at h
+  obtain ⟨_, _, _, h4, _⟩ := h.parts
   intro d hd n fs hdn f hf
-  have := List.all_eq_true.mp h.2 d hd
+  have := List.all_eq_true.mp h4 d hd
   subst hdn
   exact List.all_eq_true.mp this f hf
-
-/-- `__init__`: there is one, it is the module on disk under `__init__.py`, and its `__all__` is the sorted list of the
-    names it imports -/
-def initExactB (p : PackageIR) : Bool :=
-  p.modules.any fun m => m.kind == .init && m.file == "__init__.py" && m.all == initAll m.imports
-
-/-- what the property promises about one run -/
-def holdsB (r : Run) : Bool :=
-  match r.outcome with
-  | .error err => documentedRefusal err
-  | .ok p => wellScopedB p && initExactB p && p.reported == p.onDisk
-
-def Holds (r : Run) : Prop := holdsB r = true
-
-instance (r : Run) : Decidable (Holds r) := by unfold Holds; infer_instance
-
-/-- **C04 at full strength** (the formatter accepting, sets enumerated as listed: independence of the enumeration is
-    C10's theorem) -/
-def C04_full : Prop := ∀ cfg inp, Valid cfg inp → Holds (modelRun cfg inp)
-
-/-- the unproved region, explicitly: see the header -/
-def Proved_04 (cfg : Config) (inp : Input) : Prop := provedB cfg inp = true
-
-instance (cfg : Config) (inp : Input) : Decidable (Proved_04 cfg inp) := by unfold Proved_04; infer_instance
 
 /-! ## 1. The reported file list is the set of files written -/
 
@@ -353,11 +367,224 @@ theorem trigger_parts {cfg : Config} {inp : Input} {p : PackageIR} (hp : modelIR
     bindingsUnique_of_off hm hg (off "nameBoundTwice" _ (by simp [triggerTable])),
     rebuilt_of_off hm (off "missingRebuild" _ (by simp [triggerTable]))⟩
 
-/-- **generated_wellscoped**: outside the finding regions, and where the residual parts hold (`Proved_04`: imports resolve,
-    names are bound before use, forward references and rebuild targets are defined — evaluated by the driver on every
-    case), the model's package is well scoped. -/
+/-! ### 4a. The run behind the model's package -/
+
+theorem supported_off {cfg : Config} {inp : Input} (hs : Supported_04 cfg inp) {n : String} {b : Bool}
+    (hm : (n, b) ∈ triggerTable cfg inp) : b = false := trigger_off hs hm
+
+/-- what a trigger-free, valid input gives every per-module theorem: the operations were added, the unique-name check
+    passed, `generate()` returned, and every module it wrote is on disk exactly once -/
+theorem facts_of_supported {cfg : Config} {inp : Input} {p : PackageIR} (hp : modelIR cfg inp = some p) (hs : Supported_04 cfg inp) :
+    ∃ st io fx, Facts cfg inp p st io fx :=
+  facts_of_model hp (onIR_off hp (supported_off hs (n := "fileWrittenTwice") (by simp [triggerTable])))
+
+theorem unpacked_off {cfg : Config} {inp : Input} (hs : Supported_04 cfg inp) :
+    Fragments.trigUnpackedAndInherited id (rtEnv cfg inp) Package.fuel (inp.ops.map (·.op)) = false := by
+  have h := supported_off hs (n := "unpackedAndInherited")
+    (b := Triggers01.trigMixinAndUnpacked (Triggers01.run (t01Input cfg inp)) ||
+      Fragments.trigUnpackedAndInherited id (rtEnv cfg inp) Package.fuel (inp.ops.map (·.op))) (by simp [triggerTable])
+  simp only [Bool.or_eq_false_iff] at h
+  exact h.2
+
+theorem overwritten_off {cfg : Config} {inp : Input} (hs : Supported_04 cfg inp) : trigOperationModuleOverwritten cfg inp = false :=
+  supported_off hs (n := "operationModuleOverwritten") (by simp [triggerTable])
+
+theorem enumDefault_off {cfg : Config} {inp : Input} (hs : Supported_04 cfg inp) : trigEnumDefaultNotEnum cfg inp = false :=
+  supported_off hs (n := "enumDefaultNotEnum") (by simp [triggerTable])
+
+/-! ### 4b. One theorem per module kind.  `residualParts` = imports resolve ∧ class statements / method signatures find
+    every name they evaluate ∧ quoted forward references name something of the module ∧ rebuild calls name classes of the
+    module.  For every schema, operation set, fragment set and configuration in `Valid ∧ Supported_04`, no size bound. -/
+
+/-- **enums.py** -/
+theorem enums_module_wellscoped (cfg : Config) (inp : Input) (p : PackageIR) (hp : modelIR cfg inp = some p)
+    (hs : Supported_04 cfg inp) : ∀ m ∈ p.modules, m.kind = .enums → residualParts p m = true := by
+  obtain ⟨st, io, fx, F⟩ := facts_of_supported hp hs
+  have I := opsInv_of F.ops
+  intro m hm hk
+  rcases written_cases (F.only m hm) with rfl | ⟨fm, hfm, rfl⟩ | ⟨fo, gens, _, rfl⟩ | h | h | rfl | rfl | rfl
+  · rw [inputsModule_kind F.inputs] at hk; cases hk
+  · obtain ⟨g, _, _, hmod⟩ := I.files fm hfm
+    rw [hmod] at hk; cases hk
+  · cases hk
+  · rw [h] at hk; cases hk
+  · rw [h] at hk; cases hk
+  · cases hk
+  · exact enumsModule_residual p cfg inp.schema _
+  · cases hk
+
+/-- **input_types.py** -/
+theorem inputs_module_wellscoped (cfg : Config) (inp : Input) (p : PackageIR) (hp : modelIR cfg inp = some p)
+    (hv : Valid cfg inp) (hs : Supported_04 cfg inp) : ∀ m ∈ p.modules, m.kind = .inputs → residualParts p m = true := by
+  obtain ⟨st, io, fx, F⟩ := facts_of_supported hp hs
+  obtain ⟨hn, _, _, _, hc, _, hdm, _⟩ := hv.parts
+  have I := opsInv_of F.ops
+  intro m hm hk
+  rcases written_cases (F.only m hm) with rfl | ⟨fm, hfm, rfl⟩ | ⟨fo, gens, _, rfl⟩ | h | h | rfl | rfl | rfl
+  · exact inputs_residual F hc hdm hn (enumDefault_off hs)
+  · obtain ⟨g, _, _, hmod⟩ := I.files fm hfm
+    rw [hmod] at hk; cases hk
+  · cases hk
+  · rw [h] at hk; cases hk
+  · rw [h] at hk; cases hk
+  · cases hk
+  · cases hk
+  · cases hk
+
+/-- **client.py**: every result class / input / enum / scalar a method mentions is imported, every import resolves -/
+theorem client_module_wellscoped (cfg : Config) (inp : Input) (p : PackageIR) (hp : modelIR cfg inp = some p)
+    (hv : Valid cfg inp) (hs : Supported_04 cfg inp) : ∀ m ∈ p.modules, m.kind = .client → residualParts p m = true := by
+  obtain ⟨st, io, fx, F⟩ := facts_of_supported hp hs
+  obtain ⟨hn, _, _, _, hc, _, hdm, _⟩ := hv.parts
+  have I := opsInv_of F.ops
+  intro m hm hk
+  rcases written_cases (F.only m hm) with rfl | ⟨fm, hfm, rfl⟩ | ⟨fo, gens, _, rfl⟩ | h | h | rfl | rfl | rfl
+  · rw [inputsModule_kind F.inputs] at hk; cases hk
+  · obtain ⟨g, _, _, hmod⟩ := I.files fm hfm
+    rw [hmod] at hk; cases hk
+  · cases hk
+  · rw [h] at hk; cases hk
+  · rw [h] at hk; cases hk
+  · exact client_residual F hc hdm hn (overwritten_off hs)
+  · cases hk
+  · cases hk
+
+/-- **`__init__.py`** -/
+theorem init_module_wellscoped (cfg : Config) (inp : Input) (p : PackageIR) (hp : modelIR cfg inp = some p)
+    (hv : Valid cfg inp) (hs : Supported_04 cfg inp) : ∀ m ∈ p.modules, m.kind = .init → residualParts p m = true := by
+  obtain ⟨st, io, fx, F⟩ := facts_of_supported hp hs
+  obtain ⟨_, _, _, _, hc, _, _, _⟩ := hv.parts
+  have I := opsInv_of F.ops
+  intro m hm hk
+  rcases written_cases (F.only m hm) with rfl | ⟨fm, hfm, rfl⟩ | ⟨fo, gens, _, rfl⟩ | h | h | rfl | rfl | rfl
+  · rw [inputsModule_kind F.inputs] at hk; cases hk
+  · obtain ⟨g, _, _, hmod⟩ := I.files fm hfm
+    rw [hmod] at hk; cases hk
+  · cases hk
+  · rw [h] at hk; cases hk
+  · rw [h] at hk; cases hk
+  · cases hk
+  · cases hk
+  · exact init_residual F hc (overwritten_off hs)
+
+/-- **an operation module** (`<operation>.py`): imports resolve (enums from the enums module, fragment classes from the
+    fragments module, scalar and `@mixin` imports), every base class and every name an annotation evaluates is a class
+    imported or a `typing` / `pydantic` name or a builtin, rebuild calls name classes of the module.  The quoted forward
+    references are `Proved_04`'s business. -/
+theorem result_module_parts (cfg : Config) (inp : Input) (p : PackageIR) (hp : modelIR cfg inp = some p)
+    (hv : Valid cfg inp) (hs : Supported_04 cfg inp) : ∀ m ∈ p.modules, m.kind = .result →
+      importsResolve p m = true ∧ classesLoad m = true ∧ (m.rebuilds.all (m.classes.map (·.name)).contains) = true := by
+  obtain ⟨st, io, fx, F⟩ := facts_of_supported hp hs
+  obtain ⟨_, _, _, _, hc, hmx, _, _⟩ := hv.parts
+  intro m hm hk
+  rcases written_cases (F.only m hm) with rfl | ⟨fm, hfm, rfl⟩ | ⟨fo, gens, _, rfl⟩ | h | h | rfl | rfl | rfl
+  · rw [inputsModule_kind F.inputs] at hk; cases hk
+  · exact result_residual_parts F hc hmx (unpacked_off hs) hfm
+  · cases hk
+  · rw [h] at hk; cases hk
+  · rw [h] at hk; cases hk
+  · cases hk
+  · cases hk
+  · cases hk
+
+/-- **fragments.py**: as for an operation module, and every fragment class is defined before the classes that inherit
+    from it (C08's topological order), for every enumeration the model's run uses -/
+theorem fragments_module_parts (cfg : Config) (inp : Input) (p : PackageIR) (hp : modelIR cfg inp = some p)
+    (hv : Valid cfg inp) (hs : Supported_04 cfg inp) : ∀ m ∈ p.modules, m.kind = .fragments →
+      importsResolve p m = true ∧ classesLoad m = true ∧ (m.rebuilds.all (m.classes.map (·.name)).contains) = true := by
+  obtain ⟨st, io, fx, F⟩ := facts_of_supported hp hs
+  obtain ⟨_, _, _, _, hc, hmx, _, hac⟩ := hv.parts
+  have I := opsInv_of F.ops
+  intro m hm hk
+  rcases written_cases (F.only m hm) with rfl | ⟨fm, hfm, rfl⟩ | ⟨fo, gens, hfx, rfl⟩ | h | h | rfl | rfl | rfl
+  · rw [inputsModule_kind F.inputs] at hk; cases hk
+  · obtain ⟨g, _, _, hmod⟩ := I.files fm hfm
+    rw [hmod] at hk; cases hk
+  · exact fragments_residual_parts F hc hmx hac hfx
+  · rw [h] at hk; cases hk
+  · rw [h] at hk; cases hk
+  · cases hk
+  · cases hk
+  · cases hk
+
+theorem dangling_off {cfg : Config} {inp : Input} {p : PackageIR} (hp : modelIR cfg inp = some p) (hs : Supported_04 cfg inp) :
+    trigForwardRefDangling p = false :=
+  onIR_off hp (supported_off hs (n := "forwardRefDangling") (by simp [triggerTable]))
+
+/-- the finding region `forwardRefDangling` (F25) is exact for the part it is about: with the trigger off, the quoted forward
+    references of every operation module and of `fragments.py` name something the module defines -/
+theorem forwardRefs_of_off {p : PackageIR} {m : ModuleIR} (hm : m ∈ p.modules) (hk : m.kind = .result ∨ m.kind = .fragments)
+    (h : trigForwardRefDangling p = false) : forwardRefsOK m = true := by
+  have a := C04Proofs.of_any_false h hm
+  have hkb : (m.kind == .result || m.kind == .fragments) = true := by
+    rcases hk with hk | hk <;> simp [hk]
+  simp only [hkb, Bool.true_and, Bool.not_eq_false'] at a
+  exact a
+
+/-- **the quoted forward references of the operation modules and of `fragments.py` resolve** for every input inside the
+    decidable region `leafNamesOK` (no field name the document selects as a leaf names a composite-typed field of any type
+    of the schema): every class an annotation quotes is generated by the recursion, whatever the nesting, the fragments,
+    the type a selection set is evaluated for — the finding region `forwardRefDangling` (F25) lies outside `leafNamesOK`.
+    (Outside it the statement is FALSE: `F25_fails_in_model`.) -/
+theorem forward_refs_resolve (cfg : Config) (inp : Input) (p : PackageIR) (hp : modelIR cfg inp = some p)
+    (hw : trigFileWrittenTwice p = false) (hl : leafNamesOK inp = true) : trigForwardRefDangling p = false := by
+  obtain ⟨st, io, fx, F⟩ := facts_of_model hp hw
+  have I := opsInv_of F.ops
+  cases ht : trigForwardRefDangling p with
+  | false => rfl
+  | true =>
+    exfalso
+    obtain ⟨m, hm, hb⟩ := List.any_eq_true.mp ht
+    simp only [Bool.and_eq_true, Bool.or_eq_true, beq_iff_eq, Bool.not_eq_true'] at hb
+    obtain ⟨hk, hbad⟩ := hb
+    have hgood : forwardRefsOK m = true := by
+      rcases written_cases (F.only m hm) with rfl | ⟨fm, hfm, rfl⟩ | ⟨fo, gens, hfx, rfl⟩ | h | h | rfl | rfl | rfl
+      · rw [inputsModule_kind F.inputs] at hk; rcases hk with hk | hk <;> cases hk
+      · exact result_forwardRefs F hl hfm
+      · exact fragments_forwardRefs F hl hfx
+      · rw [h] at hk; rcases hk with hk | hk <;> cases hk
+      · rw [h] at hk; rcases hk with hk | hk <;> cases hk
+      · rcases hk with hk | hk <;> cases hk
+      · rcases hk with hk | hk <;> cases hk
+      · rcases hk with hk | hk <;> cases hk
+    unfold forwardRefsOK at hgood
+    rw [hgood] at hbad
+    cases hbad
+
+/-- the copied files (base client, `base_model.py`, `exceptions.py`, `files_to_include`) and the four custom-operation
+    modules are not the generator's own output: `moduleOK` asks nothing of them (their import is the oracle's business) -/
+theorem copied_modules_verbatim (p : PackageIR) (m : ModuleIR) (h : m.kind = .copied ∨ m.kind = .custom) : moduleOK p m = true := by
+  unfold moduleOK generated
+  rcases h with h | h <;> simp [h]
+
+/-- every generated module of the model's package is of one of the six kinds above -/
+theorem generated_kinds (m : ModuleIR) (h : generated m = true) :
+    m.kind = .enums ∨ m.kind = .inputs ∨ m.kind = .client ∨ m.kind = .init ∨ m.kind = .result ∨ m.kind = .fragments := by
+  unfold generated at h
+  cases hk : m.kind <;> simp_all
+
+/-- **an operation module**: all of `residualParts` — imports resolve (`result_module_parts`), class statements load, rebuild
+    calls name classes of the module; the quoted forward references name classes of the module because the input lies
+    outside the finding region `forwardRefDangling` (inside `leafNamesOK` that is a theorem: `forward_refs_resolve`) -/
+theorem result_module_wellscoped (cfg : Config) (inp : Input) (p : PackageIR) (hp : modelIR cfg inp = some p)
+    (hv : Valid cfg inp) (hs : Supported_04 cfg inp) : ∀ m ∈ p.modules, m.kind = .result → residualParts p m = true := by
+  intro m hm hk
+  obtain ⟨a, b, c⟩ := result_module_parts cfg inp p hp hv hs m hm hk
+  exact residualParts_of a b (forwardRefs_of_off hm (Or.inl hk) (dangling_off hp hs)) c
+
+/-- **fragments.py**: all of `residualParts` -/
+theorem fragments_module_wellscoped (cfg : Config) (inp : Input) (p : PackageIR) (hp : modelIR cfg inp = some p)
+    (hv : Valid cfg inp) (hs : Supported_04 cfg inp) : ∀ m ∈ p.modules, m.kind = .fragments → residualParts p m = true := by
+  intro m hm hk
+  obtain ⟨a, b, c⟩ := fragments_module_parts cfg inp p hp hv hs m hm hk
+  exact residualParts_of a b (forwardRefs_of_off hm (Or.inr hk) (dangling_off hp hs)) c
+
+/-- **generated_wellscoped**: for every valid input outside the finding regions the model's package is well scoped.  No
+    part of `WellScoped` is left to evaluation: the finding triggers are exactly the parts identsOK / paramsDistinct /
+    enumMembersOK / bindingsUnique / rebuilt / forward references of the result modules; `allOK` holds for every input;
+    everything else is the per-module theorems above. -/
 theorem generated_wellscoped (cfg : Config) (inp : Input) (p : PackageIR) (hp : modelIR cfg inp = some p)
-    (hs : Supported_04 cfg inp) (hpr : Proved_04 cfg inp) : WellScoped p := by
+    (hv : Valid cfg inp) (hs : Supported_04 cfg inp) : WellScoped p := by
   unfold WellScoped wellScopedB
   refine List.all_eq_true.mpr ?_
   intro m hm
@@ -365,16 +592,13 @@ theorem generated_wellscoped (cfg : Config) (inp : Input) (p : PackageIR) (hp : 
   intro hg
   obtain ⟨i1, i2, i3, i4, i5⟩ := trigger_parts hp hs hm hg
   have hres : residualParts p m = true := by
-    unfold Proved_04 provedB at hpr
-    unfold modelIR at hp
-    cases ho : (modelRun cfg inp).outcome with
-    | error e1 => rw [ho] at hp; simp at hp
-    | ok q =>
-      rw [ho] at hp hpr
-      simp only [Option.some.injEq] at hp
-      subst hp
-      have := List.all_eq_true.mp hpr m hm
-      simpa [hg] using this
+    rcases generated_kinds m hg with hk | hk | hk | hk | hk | hk
+    · exact enums_module_wellscoped cfg inp p hp hs m hm hk
+    · exact inputs_module_wellscoped cfg inp p hp hv hs m hm hk
+    · exact client_module_wellscoped cfg inp p hp hv hs m hm hk
+    · exact init_module_wellscoped cfg inp p hp hv hs m hm hk
+    · exact result_module_wellscoped cfg inp p hp hv hs m hm hk
+    · exact fragments_module_wellscoped cfg inp p hp hv hs m hm hk
   have hres' := hres
   unfold residualParts at hres'
   simp only [Bool.and_eq_true] at hres'
@@ -428,7 +652,7 @@ theorem C04_partial (cfg : Config) (inp : Input) (hv : Valid cfg inp) (hs : Supp
     exact hpr
   | ok p =>
     have hp : modelIR cfg inp = some p := by unfold modelIR; rw [ho]
-    have h1 := generated_wellscoped cfg inp p hp hs hpr
+    have h1 := generated_wellscoped cfg inp p hp hv hs
     have h3 := reported_eq_listing hp hs
     obtain ⟨_, st, io, fo, _, _, _, hmem, _, hnames⟩ := init_all_exact _ _ cfg inp _ p (modelIR_generate hp)
     have hne : (finalInit cfg inp st io fo).isEmpty = false := by
@@ -438,159 +662,136 @@ theorem C04_partial (cfg : Config) (inp : Input) (hv : Valid cfg inp) (hs : Supp
     simp only [Bool.and_eq_true, beq_iff_eq]
     exact ⟨⟨h1, initExact_of hmem hne⟩, h3⟩
 
+/-! ## 5b. `Proved_04` from the totality of the result-type generator alone -/
+
+/-- **model_run_total**: for a valid input outside the finding regions, `Proved_04` follows from ONE hypothesis — the
+    result-type generator (C01 / C08's model) refuses the document's operations and fragments only with documented
+    refusals.  The fragments generator adds no failure of its own (no KeyError / ValueError / fuel exhaustion in the
+    topological sort, in the class lookup, in the rebuild calls), nor do the input-types generator, `add_method` and the
+    package-level code. -/
+theorem model_run_total (cfg : Config) (inp : Input) (hv : Valid cfg inp) (hs : Supported_04 cfg inp)
+    (hr : ResultTypesTotal cfg inp Package.fuel) : Proved_04 cfg inp := by
+  unfold Proved_04 provedB
+  cases ho : (modelRun cfg inp).outcome with
+  | ok p => rfl
+  | error err =>
+    simp only
+    unfold modelRun at ho
+    rcases runPackage_cases (fun _ => true) id cfg inp Package.fuel with ⟨e1, ha, hrun⟩ | ⟨st, _, _, hrun⟩ | ⟨st, g, e1, ha, _, hg, hrun⟩ | ⟨st, g, _, _, _, hrun⟩
+    · rw [hrun] at ho
+      simp only [Except.error.injEq] at ho
+      subst ho
+      have := addOperations_error inp.ops {} (fun _ h => h) ha
+      cases this with
+      | anonymous o _ _ => rfl
+      | resultTypes o marks _ ho' hg => exact hr _ marks _ (Or.inl ⟨o, ho', rfl⟩) hg
+      | method o n ast aerr ho' hn hm =>
+        obtain ⟨rfl, _, _⟩ := addMethod_error_documented (hv.vars o ho') hm
+        rfl
+    · rw [hrun] at ho
+      simp only [Except.error.injEq] at ho
+      subst ho
+      rfl
+    · rw [hrun] at ho
+      simp only [Except.error.injEq] at ho
+      subst ho
+      rcases generateSteps_true_error hg with hi | ⟨ferr, rfl, hf⟩
+      · obtain ⟨io, hio⟩ := inputsModule_ok hv.inputs st.argSt.usedInputs
+        rw [hio] at hi
+        cases hi
+      · obtain ⟨_, _, _, _, _, _, _, hac⟩ := hv.parts
+        exact fragments_step_total hac (unpacked_off hs) ha
+          (fun f hf mk e h => hr (.frag f) mk e (Or.inr ⟨f, hf, rfl⟩) h) ferr hf
+    · rw [hrun] at ho
+      cases ho
+
+/-- **C04 outside the finding triggers, with the result-type generator total**: the evaluated conjunct `Proved_04` of
+    `C04_partial` replaced by the one hypothesis it stands for -/
+theorem C04_partial_of_total (cfg : Config) (inp : Input) (hv : Valid cfg inp) (hs : Supported_04 cfg inp)
+    (hr : ResultTypesTotal cfg inp Package.fuel) : Holds (modelRun cfg inp) :=
+  C04_partial cfg inp hv hs (model_run_total cfg inp hv hs hr)
+
 /-! ## 6. The full statement is false on the pinned tree: kernel-evaluated witnesses through the whole model -/
-
-namespace W
-
-def tQuery (fs : List FieldDef) : TypeDef := { name := "Query", kind := .object, fields := fs }
-def str : TypeDef := { name := "String", kind := .scalar }
-def int : TypeDef := { name := "Int", kind := .scalar }
-def idT : TypeDef := { name := "ID", kind := .scalar }
-def bool : TypeDef := { name := "Boolean", kind := .scalar }
-
-def mkInput (types : List TypeDef) (frags : List Fragment) (ops : List OpIn) (defs : List InputGen.TypeDef := []) : Input :=
-  { schema := { types := types ++ [str, bool], query := some "Query" }, frags := frags, ops := ops,
-    defs := defs ++ [.composite "Query", .scalar "String", .scalar "Boolean"] }
-
-def leaf (n : String) : Selection := .field none n [] 0 []
-
-/-- F4: `enum E { mro OK }  type Query { e: E }   query Q { e }` -/
-def enumMro : Input :=
-  mkInput [tQuery [⟨"e", .named "E", []⟩], { name := "E", kind := .enum, values := ["mro", "OK"] }] []
-    [{ op := { kind := .query, name := some "Q", sid := 1, sel := [leaf "e"] } }] [.enum "E" ["mro", "OK"]]
-
-/-- F2: `type Query { me: User }  type User { id: ID! name: String }   query Q { me { id ... { name } } }` -/
-def inlineNoType : Input :=
-  mkInput [tQuery [⟨"me", .named "User", []⟩], { name := "User", kind := .object, fields := [⟨"id", .nonNull (.named "ID"), []⟩, ⟨"name", .named "String", []⟩] }, idT] []
-    [{ op := { kind := .query, name := some "Q", sid := 1, sel := [.field none "me" [] 2 [leaf "id", .inline none [] 3 [leaf "name"]]] } }]
-    [.composite "User", .scalar "ID"]
-
-/-- F10: `type Query { f(a: Int): Int }   query Q($self: Int) { f(a: $self) }` -/
-def selfParam : Input :=
-  mkInput [tQuery [⟨"f", .named "Int", [⟨"a", .named "Int", false⟩]⟩], int] []
-    [{ op := { kind := .query, name := some "Q", sid := 1, sel := [leaf "f"] }, vars := [⟨"self", .named "Int"⟩] }] [.scalar "Int"]
-
-/-- F13: `type Query { f: Int }   query custom_fields { f }` with enable_custom_operations -/
-def customClash : Input :=
-  mkInput [tQuery [⟨"f", .named "Int", []⟩], int] []
-    [{ op := { kind := .query, name := some "custom_fields", sid := 1, sel := [leaf "f"] } }] [.scalar "Int"]
-
-def customCfg : Config := { customOps := true }
-
-/-- F15: `query Q { me { ...UF } }  fragment UF on User { id friend { id friend { id } } }` -/
-def userT : TypeDef := { name := "User", kind := .object, fields := [⟨"id", .nonNull (.named "ID"), []⟩, ⟨"friend", .named "User", []⟩] }
-def missingRebuild : Input :=
-  mkInput [tQuery [⟨"me", .named "User", []⟩], userT, idT]
-    [{ name := "UF", on := "User", sid := 3, sel := [leaf "id", .field none "friend" [] 4 [leaf "id", .field none "friend" [] 5 [leaf "id"]]] }]
-    [{ op := { kind := .query, name := some "Q", sid := 1, sel := [.field none "me" [] 2 [.spread "UF" []]] } }]
-    [.composite "User", .scalar "ID"]
-
-/-- C17-F5 seen from C04: `query Q { me { ...UF } }  fragment UF on User @mixin(from: ".x") { id }` — a documented refusal,
-    but raised by the fragments generator AFTER the input types and the operation module were written -/
-def mixinOnFragment : Input :=
-  mkInput [tQuery [⟨"me", .named "User", []⟩], userT, idT]
-    [{ name := "UF", on := "User", dirs := [{ name := "mixin", args := [("from", some ".x")] }], sid := 3, sel := [leaf "id"] }]
-    [{ op := { kind := .query, name := some "Q", sid := 1, sel := [.field none "me" [] 2 [.spread "UF" []]] } }]
-    [.composite "User", .scalar "ID"]
-
-/-- F12: `type Query { n: Node }  interface Node { id: ID }  interface Named { name: String }
-    type A implements Node & Named { id: ID name: String }   query Q { n { id ... on Named { name } } }` -/
-def fieldLookup : Input :=
-  mkInput [tQuery [⟨"n", .named "Node", []⟩], { name := "Node", kind := .interface, fields := [⟨"id", .named "ID", []⟩] },
-           { name := "Named", kind := .interface, fields := [⟨"name", .named "String", []⟩] },
-           { name := "A", kind := .object, interfaces := ["Node", "Named"], fields := [⟨"id", .named "ID", []⟩, ⟨"name", .named "String", []⟩] }, idT] []
-    [{ op := { kind := .query, name := some "Q", sid := 1, sel := [.field none "n" [] 2 [leaf "id", .inline (some "Named") [] 3 [leaf "name"]]] } }]
-    [.composite "Node", .composite "Named", .composite "A", .scalar "ID"]
-
-/-- F14: `enum List { A B }  type Query { e: List es: [List] }   query Q { e es }` -/
-def enumList : Input :=
-  mkInput [tQuery [⟨"e", .named "List", []⟩, ⟨"es", .list (.named "List"), []⟩], { name := "List", kind := .enum, values := ["A", "B"] }] []
-    [{ op := { kind := .query, name := some "Q", sid := 1, sel := [leaf "e", leaf "es"] } }] [.enum "List" ["A", "B"]]
-
-/-- F9: `type Query { dog: Dog animal: Animal }  interface Animal { id: ID }  type Dog implements Animal { id: ID }
-    query A { dog { ...AF } }  query B { animal { ...AF } }  fragment AF on Animal { id }` -/
-def unpackedInherited : Input :=
-  mkInput [tQuery [⟨"dog", .named "Dog", []⟩, ⟨"animal", .named "Animal", []⟩], { name := "Animal", kind := .interface, fields := [⟨"id", .named "ID", []⟩] },
-           { name := "Dog", kind := .object, interfaces := ["Animal"], fields := [⟨"id", .named "ID", []⟩] }, idT]
-    [{ name := "AF", on := "Animal", sid := 5, sel := [leaf "id"] }]
-    [{ op := { kind := .query, name := some "A", sid := 1, sel := [.field none "dog" [] 2 [.spread "AF" []]] } },
-     { op := { kind := .query, name := some "B", sid := 3, sel := [.field none "animal" [] 4 [.spread "AF" []]] } }]
-    [.composite "Animal", .composite "Dog", .scalar "ID"]
-
-/-- a supported, non-trivial input: two operations, a shared fragment, an enum, an input type with a recursive field -/
-def okInput : Input :=
-  mkInput [tQuery [⟨"me", .named "User", []⟩, ⟨"f", .named "Int", [⟨"i", .named "In", false⟩]⟩, ⟨"c", .named "Color", []⟩], userT, idT, int,
-           { name := "Color", kind := .enum, values := ["RED", "GREEN"] },
-           { name := "In", kind := .input, inputFields := [⟨"a", .named "Int", false⟩, ⟨"next", .named "In", false⟩, ⟨"c", .named "Color", false⟩] }]
-    [{ name := "UF", on := "User", sid := 5, sel := [leaf "id"] }]
-    [{ op := { kind := .query, name := some "GetMe", sid := 1, sel := [.field none "me" [] 2 [.spread "UF" [], .field none "friend" [] 3 [leaf "id"]], leaf "c"] } },
-     { op := { kind := .query, name := some "calc", sid := 4, sel := [leaf "f"] }, vars := [⟨"i", .named "In"⟩] }]
-    [.composite "User", .scalar "ID", .scalar "Int", .enum "Color" ["RED", "GREEN"],
-     .input "In" [⟨"a", .named "Int", none, false⟩, ⟨"next", .named "In", none, false⟩, ⟨"c", .named "Color", none, false⟩]]
-
-end W
 
 /-- F4 in the model: the enum value `mro` becomes a member of `class E(str, Enum)`; the input is valid, the package is
     emitted, and it is not well scoped (`enums.py:enumMembersOK`) -/
-theorem F4_fails_in_model : Valid {} W.enumMro ∧ ¬ Holds (modelRun {} W.enumMro) ∧ ¬ Supported_04 {} W.enumMro := by
-  decide +kernel
+theorem F4_fails_in_model : Valid {} W.enumMro ∧ ¬ Holds (modelRun {} W.enumMro) ∧ ¬ Supported_04 {} W.enumMro :=
+  Witness.F4_fails_in_model
 
 /-- F2 in the model: a valid operation with an inline fragment without type condition ends in `.internal "AttributeError"` -/
-theorem F2_fails_in_model : Valid {} W.inlineNoType ∧ ¬ Holds (modelRun {} W.inlineNoType) ∧ ¬ Supported_04 {} W.inlineNoType := by
-  decide +kernel
+theorem F2_fails_in_model : Valid {} W.inlineNoType ∧ ¬ Holds (modelRun {} W.inlineNoType) ∧ ¬ Supported_04 {} W.inlineNoType :=
+  Witness.F2_fails_in_model
 
 /-- F10 in the model: `$self` becomes a second parameter `self` -/
-theorem F10_fails_in_model : Valid {} W.selfParam ∧ ¬ Holds (modelRun {} W.selfParam) ∧ ¬ Supported_04 {} W.selfParam := by
-  decide +kernel
+theorem F10_fails_in_model : Valid {} W.selfParam ∧ ¬ Holds (modelRun {} W.selfParam) ∧ ¬ Supported_04 {} W.selfParam :=
+  Witness.F10_fails_in_model
 
 /-- F13 in the model: with custom operations, an operation called `custom_fields` has its module written twice: the
     reported list is not the directory listing -/
 theorem F13_fails_in_model : Valid W.customCfg W.customClash ∧ ¬ Holds (modelRun W.customCfg W.customClash) ∧
-    ¬ Supported_04 W.customCfg W.customClash := by
-  decide +kernel
+    ¬ Supported_04 W.customCfg W.customClash :=
+  Witness.F13_fails_in_model
 
 /-- F15 in the model: the nested class `UFFriend` of fragments.py carries a forward reference and is not rebuilt -/
-theorem F15_fails_in_model : Valid {} W.missingRebuild ∧ ¬ Holds (modelRun {} W.missingRebuild) ∧ ¬ Supported_04 {} W.missingRebuild := by
-  decide +kernel
+theorem F15_fails_in_model : Valid {} W.missingRebuild ∧ ¬ Holds (modelRun {} W.missingRebuild) ∧ ¬ Supported_04 {} W.missingRebuild :=
+  Witness.F15_fails_in_model
 
 /-- F12 in the model: a valid operation is refused with the undocumented ParsingError "Field name not found in type Node." -/
-theorem F12_fails_in_model : Valid {} W.fieldLookup ∧ ¬ Holds (modelRun {} W.fieldLookup) ∧ ¬ Supported_04 {} W.fieldLookup := by
-  decide +kernel
+theorem F12_fails_in_model : Valid {} W.fieldLookup ∧ ¬ Holds (modelRun {} W.fieldLookup) ∧ ¬ Supported_04 {} W.fieldLookup :=
+  Witness.F12_fails_in_model
 
 /-- F14 in the model: an enum called `List` is imported into the operation module next to `typing.List` -/
-theorem F14_fails_in_model : Valid {} W.enumList ∧ ¬ Holds (modelRun {} W.enumList) ∧ ¬ Supported_04 {} W.enumList := by
-  decide +kernel
+theorem F14_fails_in_model : Valid {} W.enumList ∧ ¬ Holds (modelRun {} W.enumList) ∧ ¬ Supported_04 {} W.enumList :=
+  Witness.F14_fails_in_model
 
 /-- F9 in the model: operation A unpacks fragment AF, operation B inherits it: no fragments module is written, B's
     `from .fragments import AF` does not resolve -/
-theorem F9_fails_in_model : Valid {} W.unpackedInherited ∧ ¬ Holds (modelRun {} W.unpackedInherited) ∧ ¬ Supported_04 {} W.unpackedInherited := by
-  decide +kernel
+theorem F9_fails_in_model : Valid {} W.unpackedInherited ∧ ¬ Holds (modelRun {} W.unpackedInherited) ∧ ¬ Supported_04 {} W.unpackedInherited :=
+  Witness.F9_fails_in_model
+
+/-- F23 in the model: `fooBar` and `foo_bar` share the module `foo_bar.py`; the later operation's module replaces the earlier
+    one, `__init__` still imports `FooBarA` from it -/
+theorem F23_fails_in_model : Valid {} W.opsOverwritten ∧ ¬ Holds (modelRun {} W.opsOverwritten) ∧ ¬ Supported_04 {} W.opsOverwritten :=
+  Witness.F23_fails_in_model
+
+/-- F24 in the model: the default `FOO` of a scalar-typed input field is written `.FOO`: the class statement of `I`
+    evaluates a name nothing binds -/
+theorem F24_fails_in_model : Valid {} W.enumDefault ∧ ¬ Holds (modelRun {} W.enumDefault) ∧ ¬ Supported_04 {} W.enumDefault :=
+  Witness.F24_fails_in_model
+
+/-- F25 in the model: at the interface position `node` the class for `Team` (brought by the fragment on `Named`, not a sub type
+    of `Node`) evaluates the leaf `id` against `Team`, where `id` is composite: `id: Optional["QNodeTeamId"]` quotes a class that
+    is never generated.  The input is valid, and outside `leafNamesOK` (the leaf name `id` names the composite `Team.id`). -/
+theorem F25_fails_in_model : Valid {} W.danglingRef ∧ ¬ Holds (modelRun {} W.danglingRef) ∧ ¬ Supported_04 {} W.danglingRef ∧
+    leafNamesOK W.danglingRef = false :=
+  Witness.F25_fails_in_model
 
 /-- a malformed `@mixin` on a fragment definition is one of the documented refusals, but it is raised after writes -/
 theorem mixin_on_fragment_refused_after_writes :
     (modelRun {} W.mixinOnFragment).written = ["input_types.py", "q.py"] ∧ (modelRun {} W.mixinOnFragment).mkdir = true ∧
-    Holds (modelRun {} W.mixinOnFragment) := by
-  decide +kernel
+    Holds (modelRun {} W.mixinOnFragment) :=
+  Witness.mixin_on_fragment_refused_after_writes
 
 theorem C04_full_false : ¬ C04_full := fun h => F4_fails_in_model.2.1 (h {} W.enumMro F4_fails_in_model.1)
 
 /-- non-vacuity of `C04_partial`: a non-trivial input inside Valid ∧ Supported_04 ∧ Proved_04 (two operations, a shared
     fragment, an enum, a recursive input type), for the default configuration and for sync / no snake case / pruned inputs -/
-example : Valid {} W.okInput ∧ Supported_04 {} W.okInput ∧ Proved_04 {} W.okInput ∧
-    (match (modelRun {} W.okInput).outcome with | .ok p => decide (p.modules.length ≥ 8) | .error _ => false) = true := by
-  decide +kernel
+example : W.okNontrivial :=
+  Witness.ex5
 
-def W.syncCfg : Config :=
-  { async := false, baseClientName := "BaseClient", baseClientFile := "base_client.py", snake := false, allInputs := false, allEnums := false }
+/-- non-vacuity of `forward_refs_resolve`: the same input lies inside `leafNamesOK` (its package has a fragments module and
+    operation modules with nested classes) -/
+example : leafNamesOK W.okInput = true :=
+  Witness.ex4
 
-example : Valid W.syncCfg W.okInput ∧ Supported_04 W.syncCfg W.okInput ∧ Proved_04 W.syncCfg W.okInput := by
-  decide +kernel
+example : leafNamesOK W.leafAmbiguous = false ∧ Valid {} W.leafAmbiguous ∧ Supported_04 {} W.leafAmbiguous ∧ Proved_04 {} W.leafAmbiguous :=
+  Witness.ex1
+
+example : Valid W.syncCfg W.okInput ∧ Supported_04 W.syncCfg W.okInput ∧ Proved_04 W.syncCfg W.okInput :=
+  Witness.ex2
 
 /-- non-vacuity of `generate_total_partial`'s hypotheses on the documented refusals: an anonymous operation -/
-example : (match (modelRun {} (W.mkInput [W.tQuery [⟨"f", .named "Int", []⟩], W.int] []
-    [{ op := { kind := .query, name := none, sid := 1, sel := [W.leaf "f"] } }] [.scalar "Int"])).outcome with
-      | .error (.parsing m) => m == "Query without name."
-      | _ => false) = true := by
-  decide +kernel
+example : W.anonymousRefused :=
+  Witness.ex3
 
 end Ariadne.C04
